@@ -21,6 +21,7 @@
      nbases <h>   nzones <h> <B>   rzone <h> <B> <Z>   ncoords <h> <B> <Z>   rcoord <h> <B> <Z> <name>
      nsols <h> <B> <Z>   rfield <h> <B> <Z> <S> <name>   ndesc <h> <B>   rdesc <h> <B> <D>
      gopath <h> <path>   where   delete <h> <B> <name>   save <h> <id> <adf|hdf5> <follow>
+     array <h> <B> <name> <DataType name> <n>      cg_array_write + cg_array_read_as under /Base/U (UserDefinedData_t)
      cycle <k>
 */
 #include "c17_common.c"
@@ -144,6 +145,26 @@ int main(int argc, char **argv)
             ier = Z ? cg_goto(fns[h], B, "Zone_t", Z, "end") : cg_goto(fns[h], B, "end");
             if (!ier) ier = cg_link_write(a, fnm, b);
             printf("link %d", ier); tail(0, 0);
+        }
+        else if (sscanf(line, "array %d %d %1023s %1023s %d", &h, &B, a, b, &n) == 5) {
+            /* array <h> <B> <name> <Integer|LongInteger|RealSingle|RealDouble|Character|ComplexSingle|ComplexDouble> <n>:
+               cg_goto(base, UserDefinedData_t "U" (created when missing)), cg_array_write, cg_array_read_as the same type */
+            static double buf[4096]; cgsize_t dim = n > 100 ? 100 : n; int nu = 0, na = 0, i;
+            CGNS_ENUMT(DataType_t) dt = CGNS_ENUMV(Integer);
+            for (i = 0; i < NofValidDataTypes; i++) if (!strcmp(DataTypeName[i], b)) dt = (CGNS_ENUMT(DataType_t))i;
+            memset(buf, 0x21, sizeof buf);
+            ier = cg_goto(fns[h], B, "end");
+            if (!ier) ier = cg_nuser_data(&nu);
+            if (!ier && nu == 0) ier = cg_user_data_write("U");
+            if (!ier) ier = cg_goto(fns[h], B, "UserDefinedData_t", 1, "end");
+            if (!ier) ier = cg_array_write(a, dt, 1, &dim, buf);
+            if (!ier) ier = cg_narrays(&na);
+            for (i = 1; !ier && i <= na; i++) {
+                char nm[64]; CGNS_ENUMT(DataType_t) t2; int nd; cgsize_t dv[12];
+                ier = cg_array_info(i, nm, &t2, &nd, dv);
+                if (!ier && !strcmp(nm, a)) { ier = cg_array_read_as(i, t2, buf); break; }
+            }
+            printf("array %d", ier); tail(0, 0);
         }
         else if (sscanf(line, "nbases %d", &h) == 1) { ier = cg_nbases(fns[h], &n); printf("nbases %d %d", ier, ier ? 0 : n); tail(0, 0); }
         else if (sscanf(line, "nzones %d %d", &h, &B) == 2) { ier = cg_nzones(fns[h], B, &n); printf("nzones %d %d", ier, ier ? 0 : n); tail(0, 0); }
